@@ -19,6 +19,7 @@ import DsdVerif.DriverIdent2
 import DsdVerif.DriverSingleton
 import DsdVerif.DriverUnits
 import DsdVerif.DriverSetObjects
+import DsdVerif.DriverComplexS2
 import DsdVerif.DriverDomain
 import DsdVerif.DriverLegacyReg
 import DsdVerif.Model.Dlc
@@ -642,7 +643,7 @@ def stepD (d : DState) (line : String) : DState × String :=
       | none => (d, "bad-op")
     else
     match (((DriverKernel.stepKernel line).orElse (fun _ => DriverIdent.stepIdent line)).orElse (fun _ => DriverIdent2.stepIdent2 line)).orElse
-        (fun _ => ((DriverSingleton.stepSingleton line).orElse (fun _ => DriverUnits.stepUnits line)).orElse (fun _ => DriverSetObjects.stepSetObjects line)) with
+        (fun _ => ((DriverSingleton.stepSingleton line).orElse (fun _ => DriverUnits.stepUnits line)).orElse (fun _ => (DriverSetObjects.stepSetObjects line).orElse (fun _ => DriverComplexS2.stepComplexS2 line))) with
     | some out => (d, out)
     | none =>
       match DriverLegacyReg.stepLegacyReg d.lr line with
